@@ -419,6 +419,17 @@ def gen_axis_traces(r, steps):
                                    psel=r.range(2, min(pp - 1, 8)) if post else None))
                 ops.append("cemtrace %d %d %s" % (r.range(1, 10 ** 6), r.range(2, steps), nums(gen_x0(r, n, None)[0])))
                 out.append(ops)
+    for rng in (None, "private"):
+        for init in inits + ["full"]:
+            for sig in (None, "pre", "post"):
+                ops, n, kind, box = gen_objective(r, dims=[2, 2, 3, 4, 5, 6, 8])
+                lam, mu = (0, 0)
+                if init == "full" and r.chance(1, 2):
+                    lam = r.range(4, 24); mu = r.range(1, lam - 1)
+                ops.append(optline("vdcma", lam, mu, 2, 0 if sig is None else r.choice([0.5, 2.0, 2.0 ** -6]), rng=rng, init=init,
+                                   sig="post" if sig == "post" else None, plambda=r.choice([None, None, r.range(max(mu + 1, 6), 24)])))
+                ops.append("vdcmatrace %d %d %s" % (r.range(1, 10 ** 6), r.range(2, steps), nums(gen_x0(r, n, box)[0])))
+                out.append(ops)
     for init in inits:
         ops, n, kind, box = gen_objective(r, allow_box=False)
         ops.append(("opt simplex init=%s" % init) if init else "opt simplex")
@@ -447,6 +458,12 @@ def gen_model_traces(r, quick):
         _, oline, _ = gen_opt(r, n, False, kinds=["cem"])
         ops.append(oline)
         ops.append("cemtrace %d %d %s" % (r.range(1, 10 ** 6), r.range(2, steps // 3), nums(gen_x0(r, n, None)[0])))
+        out.append(ops)
+    for _ in range(k):
+        ops, n, kind, box = gen_objective(r)
+        _, oline, _ = gen_opt(r, n, False, kinds=["vdcma"])
+        ops.append(oline)
+        ops.append("vdcmatrace %d %d %s" % (r.range(1, 10 ** 6), r.range(2, steps // 2), nums(gen_x0(r, n, box)[0])))
         out.append(ops)
     for _ in range(2 * k):
         ops, n, kind, box = gen_objective(r, allow_box=False)
@@ -503,7 +520,7 @@ def case_info(ops):
             t = [x for x in t if "=" not in x]
             if len(t) > 2: info["lambda"] = int(struct.unpack("<d", struct.pack("<Q", int(t[2][1:], 16)))[0])
         elif t[0] == "run": info["kind"], info["steps"] = "run", int(t[2])
-        elif t[0] in ("cmatrace", "ecmatrace", "cmsatrace", "cemtrace"):
+        elif t[0] in ("cmatrace", "ecmatrace", "cmsatrace", "cemtrace", "vdcmatrace"):
             info["kind"], info["steps"] = "trace", int(t[2])
         elif t[0] == "simplexrun": info["kind"], info["steps"], info["opt"] = "trace", int(t[1]), "simplex"
         elif t[0] == "coeffs":
@@ -516,6 +533,7 @@ class Res:
     def __init__(self):
         self.ok, self.crash, self.oracle, self.diff_at, self.why = True, False, [], None, ""
         self.impl, self.model, self.stderr = [], [], ""
+        self.bad_lines = set()      # indices of the op lines that failed (oracle tag or model mismatch)
 
 
 def run_case(ctx, hcmd, dcmd, ops, timeout=600, stats=None):
@@ -535,13 +553,14 @@ def run_case(ctx, hcmd, dcmd, ops, timeout=600, stats=None):
         if o.startswith("obj "): lastobj = o[4:]
         line = r.impl[i] if i < len(r.impl) else ""
         if "!oracle" in line:
+            r.bad_lines.add(i)
             r.oracle.append(line.split(" !oracle")[0][:200] + " ... " + line[line.index("!oracle"):][:300]); r.ok = False
         payload = line.split(" !oracle")[0]
         if o.startswith("coeffs"):
             dops.append(" ".join(x for x in o.split() if "=" not in x)); expect.append(("equal", payload))
         elif o.startswith("cmatrace") and payload.startswith("trace"):
             dops.append("xtrace " + payload); expect.append(("verdict", "cma"))
-        elif o.split()[0] in ("ecmatrace", "cmsatrace", "cemtrace") and payload.startswith("trace"):
+        elif o.split()[0] in ("ecmatrace", "cmsatrace", "cemtrace", "vdcmatrace") and payload.startswith("trace"):
             dops.append("x" + o.split()[0][:-5] + " " + payload); expect.append(("verdict", o.split()[0][:-5]))
         elif o.startswith("simplexrun") and payload.startswith("simplex"):
             t = o.split()
@@ -557,7 +576,7 @@ def run_case(ctx, hcmd, dcmd, ops, timeout=600, stats=None):
             if stats is not None: stats["coeff_lines"] = stats.get("coeff_lines", 0) + 1
             if got != want:
                 if r.diff_at is None: r.diff_at, r.why = i, "coefficients-differ"
-                r.ok = False
+                r.ok = False; r.bad_lines.add(i)
         elif ex == "verdict":
             m = re.match(r"ok gens=(\d+) bits=(\d+) tol=(\d+) ties=(\d+)", got)
             if m and stats is not None:
@@ -566,7 +585,7 @@ def run_case(ctx, hcmd, dcmd, ops, timeout=600, stats=None):
                 stats["steps_skipped_unstable_ties"] = stats.get("steps_skipped_unstable_ties", 0) + int(m.group(4))
             if not m:
                 if r.diff_at is None: r.diff_at, r.why = i, "update-differs:" + got.replace(" ", "-")[:60]
-                r.ok = False
+                r.ok = False; r.bad_lines.add(i)
     return r
 
 
@@ -616,9 +635,25 @@ def correspond(ctx, name, cases, hcmd, dcmd, max_report=8):
     if big.ok:
         ctx.log(f"{name}: {len(cases)} cases / {len(all_ops)} ops agree ({time.time()-t:.1f}s) {stats}")
         return 0
-    with ThreadPoolExecutor(max_workers=4) as ex:
-        results = list(ex.map(lambda c: run_case(ctx, hcmd, dcmd, c), cases))
-    failing = [(c, r) for c, r in zip(cases, results) if not r.ok]
+    # every case starts with its own `obj` / `opt` lines and every run seeds its generators, so the cases of the batch are
+    # independent: a complete batch attributes each failing line to its case and only those cases are run again on their
+    # own; an incomplete batch (crash, timeout) or a failure that does not reproduce alone falls back to running every case
+    failing = []
+    if not big.crash and len(big.impl) == len(all_ops) and len(big.model) >= len(all_ops) and big.bad_lines:
+        owner, k = [], 0
+        for ci, c in enumerate(cases):
+            owner += [ci] * len(c)
+        cand = sorted({owner[i] for i in big.bad_lines if i < len(owner)})
+        with ThreadPoolExecutor(max_workers=4) as ex:
+            results = list(ex.map(lambda ci: run_case(ctx, hcmd, dcmd, cases[ci]), cand))
+        failing = [(cases[ci], r) for ci, r in zip(cand, results) if not r.ok]
+        if len(failing) != len(cand):
+            ctx.log(f"{name}: {len(cand) - len(failing)} case(s) fail in the batch but not alone; running every case on its own")
+            failing = []
+    if not failing:
+        with ThreadPoolExecutor(max_workers=4) as ex:
+            results = list(ex.map(lambda c: run_case(ctx, hcmd, dcmd, c), cases))
+        failing = [(c, r) for c, r in zip(cases, results) if not r.ok]
     if not failing:
         failing = [(all_ops, big)]
     ctx.log(f"{name}: {len(failing)} of {len(cases)} cases FAIL")
